@@ -31,6 +31,10 @@ CLAIMED = {
  'C12': dict(
   text="Coq theorems over Batch.v/Cli.v: validating rules files rs against data files ds (rules-major as validate.rs, data-major as structured.rs) yields, at position (i,j), exactly eval_file of that pair from the fresh state init_state, i.e. the report of the pair validated alone; permuting the rules files or the data files only permutes the reports; the run has a FAIL iff some pair FAILs; the exit status is a function of (all parsed, some FAIL, some error) and hence independent of the order in which files are given or walked. That the code really builds a fresh root scope per pair and keeps no mutable process-wide state is NOT a theorem: it is certified on every run by two inventories regenerated from the source (every `root_scope(` construction site with its enclosing loops; every static / lazy_static / thread_local / OnceCell / Mutex item) against their reviewed classification. Monitor on the real binary: 1..3 rules files reusing rule, variable and capture names x 1..4 documents, every pair alone vs the batch in several orders of -r/-d, as directories with -a/-m, as --payload, in plain mode; the cases of one test file vs each case alone.",
   note="tie = tools/gv/inventory.py (pattern-based, /verif/inventory/*.json) + CLI runs. The pointwise theorem holds by construction of the model (eval_file has no other input); its link to the code is the inventory plus the SEval correspondence of C02. Excluded by statement: the plain-mode exit code when a parse error and a FAIL are mixed (C07)."),
+ 'C05': dict(
+  text="PARTIAL. Proved in Coq: evaluation (SEval.eval_file) is a function of rules, document and oracles - the model has no hash-order, clock or history parameter; `test` reports list rules in the order of first appearance in the evaluation record; output blocks rendered from a hash container are the same up to permutation for any two iteration orders, and a reporter that sorts its keys prints the same sequence. Tied to the code by inventories regenerated from the source on every run (every function that iterates a HashMap/HashSet, every process-wide static) against a reviewed classification saying which sites feed structured output (none since the fixes), which only console output, which sort first. NOT proved: that serde_json/serde_yaml/quick_xml render a value to the same bytes each time, and the absence of other nondeterminism in library code - these are searched for by the repeated-run differential the property describes (5 fresh processes per (rules, data, mode) over 16 command/mode combinations incl. test, parse-tree, rulegen; run_checks 5 times in one process interleaved with other evaluations), which is testing, not proof.",
+  note="tie = tools/gv/inventory.py vs /verif/inventory/{hash_iter,static}.json + repeated runs. Three genuine defects found by the search were repaired in /repo (0a447c0 test report order, aebbc50 rulegen order, the console by_resources fix) together with the error-text key order.",
+  technique="machine-checked proof in Coq (ordering lemmas over the model) + source inventories tying the model's absence of hash-order parameters to the code + repeated-run differential as search"),
 }
 
 NOT_CLAIMED = {}
